@@ -335,6 +335,70 @@ class ThroughCompile(object):
         return 'runs=%d' % runs, vs, (runs, runs - 1)
 
 
+class DirectoryInTheWay(object):
+    name = 'a-directory-where-the-file-belongs'
+    describe = ('both file writers, the place of the module\'s file taken by a directory (empty, holding a '
+                'file), through putData() and through compile(): the store fails with the writer error, the directory '
+                'tree is exactly what it was (nothing moved into the directory, no temporary file), compile() reports failed')
+
+    def blocks(self, tier):
+        return [{'w': w} for w in WRITERS]
+
+    def cases(self, block, tier):
+        for shape in ('empty-directory', 'directory-with-a-file'):   # (a LINK to a directory is replaced by the rename: no obstacle)
+            for via in ('putData', 'compile'):
+                yield {'w': block['w'], 'shape': shape, 'via': via}
+
+    def run_case(self, case):
+        from mc import env
+        root = scratch()
+        try:
+            _, fname = make_writer(case['w'], root)
+            d = os.path.join(root, 'dst')
+            os.mkdir(d)
+            if case['shape'] == 'link-to-a-directory':
+                os.mkdir(os.path.join(root, 'elsewhere'))
+                os.symlink(os.path.join(root, 'elsewhere'), os.path.join(d, fname))
+            else:
+                os.mkdir(os.path.join(d, fname))
+                if case['shape'] == 'directory-with-a-file':
+                    with open(os.path.join(d, fname, 'kept'), 'w') as f:
+                        f.write('kept')
+            before = faultfs.snapshot(root)
+            w, fname = make_writer(case['w'], d)
+            sig = 'C13|directory-in-the-way|%s|%s|%s' % (case['w'], case['shape'], case['via'])
+            vs = []
+            if case['via'] == 'putData':
+                try:
+                    w.putData(MODNAME, DATA['short'])
+                    vs.append(('%s|returned-normally' % sig, 'no text can be under the module name: a directory is there'))
+                except error.PySmiWriterError:
+                    pass
+                except Exception as exc:
+                    vs.append(('%s|foreign-exception|%s' % (sig, type(exc).__name__), repr(exc)[:200]))
+            else:
+                text = 'TEST-MIB DEFINITIONS ::= BEGIN\nIMPORTS enterprises FROM SNMPv2-SMI;\nx OBJECT IDENTIFIER ::= { enterprises 1 }\nEND\n'
+                parser = env.shared_parser('smiV2')
+                parser.reset()
+                comp = env.MibCompiler(parser, env.make_codegen('json' if 'file' in case['w'] else 'pysnmp'), w)
+                texts = env.base_texts()
+                texts[MODNAME] = text
+                comp.addSources(env.DictReader(texts))
+                comp.addSearchers(env.StubSearcher(*env.BASE_NAMES))
+                try:
+                    st = comp.compile(MODNAME, ignoreErrors=True).get(MODNAME)
+                    if str(st) != 'failed' or not isinstance(getattr(st, 'error', None), error.PySmiWriterError):
+                        vs.append(('%s|status-%s' % (sig, st), repr(getattr(st, 'error', None))[:200]))
+                except Exception as exc:
+                    vs.append(('%s|exception-escapes-compile|%s' % (sig, type(exc).__name__), repr(exc)[:200]))
+            after = faultfs.snapshot(root)
+            if after != before:
+                vs.append(('%s|directory-tree-changed' % sig, 'before %r after %r' % (sorted(before or {}), sorted(after or {}))))
+            return 'ok' if not vs else 'bad', vs, 1
+        finally:
+            shutil.rmtree(root, ignore_errors=True)
+
+
 class RealSizeLimit(object):
     name = 'real-write-failures'
     describe = ('write failures made by the operating system, not by a patched os.write: RLIMIT_FSIZE (with SIGXFSZ ignored: a '
@@ -571,4 +635,4 @@ class TwoWritersOneFault(object):
         return 'schedules=%d runs=%d' % (len(schedules), counters['runs']), vs, (counters['steps'], counters['runs'])
 
 
-FAMILIES = [SingleWriter(), DryRun(), TwoWriters(), TwoWritersOneFault(), RealSizeLimit(), ThroughCompile()]
+FAMILIES = [SingleWriter(), DryRun(), TwoWriters(), TwoWritersOneFault(), RealSizeLimit(), ThroughCompile(), DirectoryInTheWay()]
